@@ -133,6 +133,7 @@ theorem seqLikeWith_takeRest {pe : Bool → B → List Int → R (B × List Int)
     split at h
     · obtain ⟨v', h1, h⟩ := (bind_ok _ _ _).1 h
       obtain ⟨bs, _, h⟩ := (bind_ok _ _ _).1 h
+      obtain ⟨⟨views', buf'⟩, _, h⟩ := (bind_ok _ _ _).1 h
       cases h
       simp [takeRest, setValidity_skel h1]
     · simp [notSupported, fail] at h
